@@ -16,7 +16,7 @@ CLAIM = dict(
          "target's package); instantiation_complete (explicit argument indexes and implicit-import indexes of an instantiation are "
          "disjoint and together exactly the imports of its package; the instantiate items of the encoder pass exactly the import "
          "names, each once); enc_inv_reachable (the side condition EncInv of C02's wiring_correct is derived for every reachable "
-         "graph from universe facts + 'a definition has one export name'); no_late_failure_partial (for reachable graphs the "
+         "graph from universe facts alone; 'a definition has one export name' is itself derived, defs_single_reachable: export() renames a definition); no_late_failure_partial (for reachable graphs the "
          "modelled causes of a post-hoc failure - dangling index, missing / duplicated / extra argument, unchecked argument, stale "
          "or missing export name - do not occur in an output of the model encoder); encoder_panics_classified (the model encoder's "
          "graph-consistency panics are unreachable for reachable graphs: only the three index-bookkeeping sites remain, and XBadNode "
